@@ -7,7 +7,10 @@
 class CartesianR6_Sonnendrucker_CzarnyGeometry : public SourceTerm
 {
 public:
-    CartesianR6_Sonnendrucker_CzarnyGeometry() = default;
+    CartesianR6_Sonnendrucker_CzarnyGeometry()
+    {
+        initializeGeometry();
+    }
     explicit CartesianR6_Sonnendrucker_CzarnyGeometry(const double& Rmax, const double& inverse_aspect_ratio_epsilon,
                                                       const double& ellipticity_e);
     virtual ~CartesianR6_Sonnendrucker_CzarnyGeometry() = default;
